@@ -125,14 +125,14 @@ let run_split (args : (string * string) list) : string =
            (model.lb_split (nl cuts_obs), None)
          | _ -> (split_iter model (n_of_int k), None))
       | "ipl" ->
-        (* the DEFAULT number of parallel lenders is the implementation's choice (the pool
-           size today); the model is run for the number of parts the implementation actually
-           produced - the theorems hold for every part count - so that lenders and boundaries
-           are compared with the uniform split into that many parts *)
-        let k' = (match get_opt args "parts", status with
-                  | Some ps, "ok" -> let np = List.length (parse_parts ps) in if np >= 1 then np else k
-                  | _ -> k) in
-        let (r, b) = into_par_uniform model (n_of_int k') in (r, Some b)
+        (* the DEFAULT split into parallel lenders (how many, and at which cutpoints) is the
+           implementation's choice; the model is split at the boundaries the implementation
+           REPORTED - the theorems hold for every legal cut sequence - and the oracle checks that
+           they are legal, run from 0 to n and describe the lenders *)
+        (match get_opt args "bounds", status with
+         | Some b, "ok" when b <> "-" && b <> "" ->
+           let (r, bb) = into_par_cutpoints model (nl (ints_of_string b)) in (r, Some bb)
+         | _ -> let (r, b) = into_par_uniform model (n_of_int k) in (r, Some b))
       | "ipl_cp" -> let (r, b) = into_par_cutpoints model (nl given_cuts) in (r, Some b)
       | "ipl_dcf" ->
         let cwf = dcf_of (lb_iter model) in
